@@ -513,8 +513,10 @@ class Prov(object):
                 for t, v in zip(elts, valnode.elts):
                     st = self.assign(t, self.ev(v, st), st, stmt, v)
                 return st
+            # unpacking an array (a, b = x.T): each element is a view of the same storage
+            each = ('VIEW', val[1]) if val is not None and val[0] in ('VIEW', 'SAME') and val[1] is not None and not val[1].startswith('global:') else UNK
             for t in elts:
-                st = self.assign(t, UNK, st, stmt)
+                st = self.assign(t, each, st, stmt)
             return st
         if isinstance(target, ast.Starred):
             return self.assign(target.value, UNK, st, stmt)
